@@ -1,8 +1,9 @@
 use std::{
     cell::{Cell, RefCell},
-    collections::BTreeMap,
     sync::Arc,
 };
+
+use indexmap::IndexMap;
 
 use codemap::Spanned;
 
@@ -17,9 +18,9 @@ use crate::{
 #[allow(clippy::type_complexity)]
 #[derive(Debug, Default, Clone)]
 pub(crate) struct Scopes {
-    pub(crate) variables: Arc<RefCell<Vec<Arc<RefCell<BTreeMap<Identifier, Value>>>>>>,
-    pub(crate) mixins: Arc<RefCell<Vec<Arc<RefCell<BTreeMap<Identifier, Mixin>>>>>>,
-    pub(crate) functions: Arc<RefCell<Vec<Arc<RefCell<BTreeMap<Identifier, SassFunction>>>>>>,
+    pub(crate) variables: Arc<RefCell<Vec<Arc<RefCell<IndexMap<Identifier, Value>>>>>>,
+    pub(crate) mixins: Arc<RefCell<Vec<Arc<RefCell<IndexMap<Identifier, Mixin>>>>>>,
+    pub(crate) functions: Arc<RefCell<Vec<Arc<RefCell<IndexMap<Identifier, SassFunction>>>>>>,
     len: Arc<Cell<usize>>,
     pub last_variable_index: Option<(Identifier, usize)>,
 }
@@ -27,9 +28,9 @@ pub(crate) struct Scopes {
 impl Scopes {
     pub fn new() -> Self {
         Self {
-            variables: Arc::new(RefCell::new(vec![Arc::new(RefCell::new(BTreeMap::new()))])),
-            mixins: Arc::new(RefCell::new(vec![Arc::new(RefCell::new(BTreeMap::new()))])),
-            functions: Arc::new(RefCell::new(vec![Arc::new(RefCell::new(BTreeMap::new()))])),
+            variables: Arc::new(RefCell::new(vec![Arc::new(RefCell::new(IndexMap::new()))])),
+            mixins: Arc::new(RefCell::new(vec![Arc::new(RefCell::new(IndexMap::new()))])),
+            functions: Arc::new(RefCell::new(vec![Arc::new(RefCell::new(IndexMap::new()))])),
             len: Arc::new(Cell::new(1)),
             last_variable_index: None,
         }
@@ -52,16 +53,16 @@ impl Scopes {
         }
     }
 
-    pub fn global_variables(&self) -> Arc<RefCell<BTreeMap<Identifier, Value>>> {
+    pub fn global_variables(&self) -> Arc<RefCell<IndexMap<Identifier, Value>>> {
         debug_assert_eq!(self.len(), (*self.variables).borrow().len());
         Arc::clone(&(*self.variables).borrow()[0])
     }
 
-    pub fn global_functions(&self) -> Arc<RefCell<BTreeMap<Identifier, SassFunction>>> {
+    pub fn global_functions(&self) -> Arc<RefCell<IndexMap<Identifier, SassFunction>>> {
         Arc::clone(&(*self.functions).borrow()[0])
     }
 
-    pub fn global_mixins(&self) -> Arc<RefCell<BTreeMap<Identifier, Mixin>>> {
+    pub fn global_mixins(&self) -> Arc<RefCell<IndexMap<Identifier, Mixin>>> {
         Arc::clone(&(*self.mixins).borrow()[0])
     }
 
@@ -93,13 +94,13 @@ impl Scopes {
         (*self.len).set(len + 1);
         (*self.variables)
             .borrow_mut()
-            .push(Arc::new(RefCell::new(BTreeMap::new())));
+            .push(Arc::new(RefCell::new(IndexMap::new())));
         (*self.mixins)
             .borrow_mut()
-            .push(Arc::new(RefCell::new(BTreeMap::new())));
+            .push(Arc::new(RefCell::new(IndexMap::new())));
         (*self.functions)
             .borrow_mut()
-            .push(Arc::new(RefCell::new(BTreeMap::new())));
+            .push(Arc::new(RefCell::new(IndexMap::new())));
     }
 
     pub fn exit_scope(&mut self) {
